@@ -186,6 +186,10 @@ CHECKS["C15"]["stages"].append(
     {"name": "tcp-teardown", "pkg": "srvworld", "run": "^TestC15TCP$",
      "quick": {"shards": 2, "checks": 2000, "timeout_s": 420},
      "thorough": {"shards": 8, "checks": 6000, "size": 40, "timeout_s": 2400}})
+CHECKS["C05"]["stages"].append(
+    {"name": "client-stream-e2e", "pkg": "cliworld", "run": "^TestC05ClientStream$",
+     "quick": {"shards": 2, "checks": 150, "timeout_s": 400},
+     "thorough": {"shards": 8, "checks": 3000, "timeout_s": 2000}})
 CHECKS["C15"]["stages"].append(
     {"name": "tls-listener-teardown", "pkg": "srvworld", "run": "^TestC15TLS$",
      "quick": {"shards": 2, "checks": 120, "timeout_s": 400},
